@@ -11,7 +11,16 @@ Open Scope nat_scope.
 Inductive form :=
 | FPlain | FDefault | FDefaultColon | FAssign | FAlt | FAltColon | FLength
 | FRemSufS | FRemSufL | FRemPreS | FRemPreL | FSubstring
-| FUpper1 | FUpperAll | FLower1 | FLowerAll | FReplace | FTransformQ | FTransformU.
+| FUpper1 | FUpperAll | FLower1 | FLowerAll | FReplace | FTransformQ | FTransformU
+(* arithmetic contexts that read a variable by name (arithmetic.rs [get_var_value]) *)
+| FArithExp        (* $(( n + 1 )) *)
+| FArithCmd        (* (( n + 1 )) *)
+| FLet             (* let "n + 1" *)
+| FSubscript       (* ${arr[n]} *)
+| FSubstrOff       (* ${s:n} *)
+| FSubstrLen       (* ${s:0:n} *)
+| FArithFor        (* for (( i=n; i<1; i++ )) *)
+| FAssignSub.      (* arr[n]=1 *)
 Inductive kind :=
 | KNamedUnset        (* ${nv}      nv unset *)
 | KPositionalUnset   (* ${3}       fewer than 3 arguments *)
@@ -19,17 +28,38 @@ Inductive kind :=
 | KIndexUnsetElem    (* ${arr[5]}  arr=(a b) *)
 | KAllUnsetVar       (* ${nv[@]}   nv unset *)
 | KAllEmptyArr       (* ${arr[@]}  arr=() *)
-| KSpecialAt | KSpecialStar.   (* $@ / $* without arguments *)
+| KSpecialAt | KSpecialStar    (* $@ / $* without arguments *)
+(* declared but unset names: the variable exists in the environment, without a value *)
+| KDeclared          (* declare dv *)
+| KDeclaredInt       (* declare -i di *)
+| KExported          (* export ev *)
+| KLocal             (* local lv   (inside a function) *)
+| KUnsetAfterSet     (* uv=1; unset uv *)
+| KDeclaredArr.      (* declare -a da;  ${da} *)
 
 Definition all_forms := [FPlain; FDefault; FDefaultColon; FAssign; FAlt; FAltColon; FLength; FRemSufS; FRemSufL;
-  FRemPreS; FRemPreL; FSubstring; FUpper1; FUpperAll; FLower1; FLowerAll; FReplace; FTransformQ; FTransformU].
+  FRemPreS; FRemPreL; FSubstring; FUpper1; FUpperAll; FLower1; FLowerAll; FReplace; FTransformQ; FTransformU;
+  FArithExp; FArithCmd; FLet; FSubscript; FSubstrOff; FSubstrLen; FArithFor; FAssignSub].
 Definition all_kinds := [KNamedUnset; KPositionalUnset; KIndexUnsetVar; KIndexUnsetElem; KAllUnsetVar; KAllEmptyArr;
-  KSpecialAt; KSpecialStar].
+  KSpecialAt; KSpecialStar; KDeclared; KDeclaredInt; KExported; KLocal; KUnsetAfterSet; KDeclaredArr].
 
 (** [${x=d}] on a positional / special parameter or on [x[@]] is a different error (cannot assign) *)
+Definition arith_form (f : form) : bool :=
+  match f with
+  | FArithExp | FArithCmd | FLet | FSubscript | FSubstrOff | FSubstrLen | FArithFor | FAssignSub => true
+  | _ => false
+  end.
+(** a plain name without a value: absent, or declared by declare/export/local/unset *)
+Definition bare_name (k : kind) : bool :=
+  match k with
+  | KNamedUnset | KDeclared | KDeclaredInt | KExported | KLocal | KUnsetAfterSet | KDeclaredArr => true
+  | _ => false
+  end.
 Definition applicable (f : form) (k : kind) : bool :=
-  match f, k with
+  if arith_form f then bare_name k      (* an arithmetic expression names a variable *)
+  else match f, k with
   | FAssign, (KPositionalUnset | KAllUnsetVar | KAllEmptyArr | KSpecialAt | KSpecialStar) => false
+  | FAssign, KDeclaredInt => false       (* assigning the word d to an integer variable evaluates d *)
   | _, _ => true
   end.
 
@@ -43,23 +73,29 @@ Definition allows (f : form) (k : kind) : bool :=
   match f with
   | FDefault | FDefaultColon | FAssign | FAlt | FAltColon => true
   | FLength => indexed k && var_exists k
+  | FLet => true     (* let_.rs: an evaluation error makes `let` fail (status 1), it is not fatal *)
   | _ => false
   end.
 (** [expand_parameter_without_indirect] reaches [undefined_expansion] *)
+(** ... and arithmetic.rs [get_var_value]: a name whose variable is absent or [!value.is_set()] *)
 Definition undefined (k : kind) : bool :=
-  match k with KNamedUnset | KPositionalUnset | KIndexUnsetVar | KIndexUnsetElem => true | _ => false end.
+  match k with KNamedUnset | KPositionalUnset | KIndexUnsetVar | KIndexUnsetElem => true | _ => bare_name k end.
 Definition model_rejects (f : form) (k : kind) : bool := undefined k && negb (allows f k).
 
 Definition bash_rejects (f : form) (k : kind) : bool :=
   match f with
   | FDefault | FDefaultColon | FAssign | FAlt | FAltColon => false
-  | FLength => match k with KNamedUnset | KPositionalUnset | KIndexUnsetVar | KAllUnsetVar => true | _ => false end
-  | _ => match k with KNamedUnset | KPositionalUnset | KIndexUnsetVar | KIndexUnsetElem => true | _ => false end
+  | FLength => match k with KNamedUnset | KPositionalUnset | KIndexUnsetVar | KAllUnsetVar => true | _ => bare_name k end
+  | _ => match k with KNamedUnset | KPositionalUnset | KIndexUnsetVar | KIndexUnsetElem => true | _ => bare_name k end
   end.
 
 (** the one cell where they differ: [${#nv[@]}] with nv unset (bash: unbound variable; brush: 0) *)
 Definition known_nounset_divergence (f : form) (k : kind) : bool :=
-  match f, k with FLength, KAllUnsetVar => true | _, _ => false end.
+  match f, k with
+  | FLength, KAllUnsetVar => true
+  | FLet, _ => bare_name k          (* `let "n + 1"` with n unset: bash aborts, brush's let only fails *)
+  | _, _ => false
+  end.
 
 Definition form_eqb (a b : form) : bool :=
   match a, b with
@@ -72,14 +108,15 @@ Definition form_eqb (a b : form) : bool :=
 
 Lemma nounset_cells :
   forallb (fun f => forallb (fun k =>
-    Bool.eqb (model_rejects f k) (bash_rejects f k) || known_nounset_divergence f k) all_kinds) all_forms = true.
+    negb (applicable f k) || Bool.eqb (model_rejects f k) (bash_rejects f k) || known_nounset_divergence f k) all_kinds) all_forms = true.
 Proof. vm_compute. reflexivity. Qed.
 
-Theorem nounset_table f k : In f all_forms -> In k all_kinds ->
+Theorem nounset_table f k : In f all_forms -> In k all_kinds -> applicable f k = true ->
   model_rejects f k = bash_rejects f k \/ known_nounset_divergence f k = true.
 Proof.
-  intros Hf Hk. pose proof nounset_cells as T. rewrite forallb_forall in T. specialize (T f Hf).
-  rewrite forallb_forall in T. specialize (T k Hk). apply orb_prop in T as [T|T]; [left|right; exact T].
+  intros Hf Hk Ha. pose proof nounset_cells as T. rewrite forallb_forall in T. specialize (T f Hf).
+  rewrite forallb_forall in T. specialize (T k Hk). rewrite Ha in T. cbn [negb orb] in T.
+  apply orb_prop in T as [T|T]; [left|right; exact T].
   apply Bool.eqb_prop, T.
 Qed.
 
